@@ -415,7 +415,7 @@ def main():
                 _t = verdict.split(" ")
                 v = _t[0] + (" " + _t[1] if verdict.startswith("ok ") and len(_t) > 1 else "")
                 # keep the words that say how a claim was decided (certified / uncertified / exact arithmetic / known zero)
-                v += "".join(" " + w for w in _t[2:6] if re.search(r"certified|exact-arithmetic|existence-by|subdivided", w))
+                v += "".join(" " + w for w in _t[2:6] if re.search(r"certified|exact-arithmetic|existence-by|subdivided|loop-shaped|other-shape", w))
                 stats["verdicts"][v] = stats["verdicts"].get(v, 0) + 1
                 stats["by_op"][op] = stats["by_op"].get(op, 0) + 1
                 if verdict.startswith("ok"):
